@@ -51,7 +51,7 @@ var _ RawRegister32 = ParseTXTVerEMIF(0)
 // ReadTXTVerEMIF reads a TXTVerEMIF register from TXT config
 func ReadTXTVerEMIF(data TXTConfigSpace) (TXTVerEMIF, error) {
 	var u32 uint32
-	buf := bytes.NewReader(data[TXTVerEMIfRegisterOffset:])
+	buf := bytes.NewReader(data.from(TXTVerEMIfRegisterOffset))
 	err := binary.Read(buf, binary.LittleEndian, &u32)
 	if err != nil {
 		return 0, err
